@@ -569,6 +569,30 @@ def diverse_run(ctx, item):
     return runs
 
 
+WITNESSES = ("NeverZero", "NeverSharedFile", "NeverInjectNew", "NeverExclude", "NeverOverwrite", "NeverBlocked", "NeverConflict",
+             "NeverLoop", "NeverMissing")
+WITNESS_CFG = """SPECIFICATION Spec
+CONSTANTS
+  Worlds <- MCQuick
+  StopAtFailure = TRUE
+INVARIANT %s
+VIEW view
+CHECK_DEADLOCK FALSE
+"""
+
+
+def witnesses(ctx, out):
+    """negated witness properties: each must be VIOLATED on the model (the antecedents of the invariants are reachable)"""
+    try:
+        for name in WITNESSES:
+            cfg = f"Mockery_witness_{name}.cfg"
+            r = ctx.tlc("MockeryMC", cfg, files={"cfg/" + cfg: WITNESS_CFG % name}, workers=2, timeout=900, count=False)
+            if r.violated != name:
+                out.append(f"{name}: expected a violation, TLC said {r.violated or 'nothing'} (exit {r.code})")
+    except BaseException as e:  # noqa: BLE001 - reported in the main thread
+        out.append(f"witness run failed: {e}")
+
+
 # ---------------------------------------------------------------------------------------------------- main
 def run(ctx):
     thorough = ctx.thorough()
@@ -598,6 +622,10 @@ def run(ctx):
     t0 = time.time()
     t_cases = bg("cases", mcmod, f"Mockery_cases_{tier}.cfg", workers=1, timeout=1500, count=False)
     t_mc = bg("mc", mcmod, f"Mockery_{tier}.cfg", workers=10 if thorough else 8, timeout=3000, count=False, coverage=thorough)
+    wit_out = []
+    t_wit = threading.Thread(target=witnesses, args=(ctx, wit_out), daemon=True) if thorough else None
+    if t_wit:
+        t_wit.start()
     ctx.mockery()
     phase["build"] = round(time.time() - t0, 1)
 
@@ -657,7 +685,7 @@ def run(ctx):
         raise MachineryError("vacuity: --log-level debug never produced more output than MOCKERY_LOG_LEVEL=error")
 
     # ------------------------------------------------------------ diverse worlds (calibration of the world-free clauses)
-    ndiv = int(os.environ.get("VERIF_ROOT_N") or (2400 if thorough else 160))
+    ndiv = int(os.environ.get("VERIF_ROOT_N") or (4000 if thorough else 160))
     tp = time.time()
     dres = pipetrace.pmap(lambda it: diverse_run(ctx, it), [(i, ctx.seed * 1000003 + i) for i in range(ndiv)], workers=12)
     phase["diverse"] = round(time.time() - tp, 1)
@@ -703,17 +731,18 @@ def run(ctx):
     # ------------------------------------------------------------ binding self-test: corruptions must be rejected
     tp = time.time()
     base = None
-    for r in runs:
+    rejected_idx = {x["index"] for x in rej}
+    for k, r in enumerate(runs):
         names = [e.get("ev") for e in r.trace]
-        if (r.code == 0 and getattr(r, "expect", None) is not None and names.count("InitEnd") == 2 and "Write" in names
+        if (k not in rejected_idx and r.code == 0 and getattr(r, "expect", None) is not None and names.count("InitEnd") == 2 and "Write" in names
                 and any(e.get("ev") == "Inject" and not e.get("existed") for e in r.trace)
                 and any(e.get("ev") == "Select" and not e.get("gen") for e in r.trace)
                 and any(e.get("ev") == "ResolveIter" and e.get("i") == 1 for e in r.trace)):
             base = r
             break
-    if base is None:
+    if base is None and not ctx.violations:
         raise MachineryError("no accepted run fit for the corruption self-test")
-    corr = runtrace.selftest(ctx, base)
+    corr = runtrace.selftest(ctx, base) if base is not None else {}
     phase["selftest"] = round(time.time() - tp, 1)
 
     # ------------------------------------------------------------ the model check
@@ -727,6 +756,12 @@ def run(ctx):
         zero = [z for z in pipetrace.final_coverage_zero(r_mc) if re.search(r"^<(\w+) line \d+, col \d+ to line \d+, col \d+ of module Mockery>", z)]
         if zero:
             raise MachineryError("vacuity: actions of Mockery.tla never taken: " + "; ".join(zero[:8]))
+
+    if t_wit:
+        t_wit.join()
+        if wit_out:
+            raise MachineryError("vacuity witnesses: " + "; ".join(wit_out))
+        ctx.cov["witness_invariants_violated_as_required"] = list(WITNESSES)
 
     # ------------------------------------------------------------ evidence
     ctx.cov["distinct_nontrivial"] = len({json.dumps(c["world"]["cfg"], sort_keys=True) for c in cases})
